@@ -35,7 +35,7 @@ func main() {
 		out := fs.String("out", "mux.ndjson", "output file")
 		only := fs.Int("only", -1, "run only the scenario with this index")
 		list := fs.Bool("list", false, "print the scenario plan and exit")
-		filter := fs.String("filter", "none", "client filters registered in this process: none|pre|post|prepost|legacy|mw")
+		filter := fs.String("filter", "none", "client filters registered in this process: none|pre|post|prepost|legacy|mw (transparent), fpre|fpost|flegacy|fmw (not transparent: faultfilter.go)")
 		stop := fs.Bool("stop-on-hung", false, "run no further scenario in this process once a call has not returned")
 		fs.Parse(os.Args[2:])
 		err = cmdTrace(*seed, *cls, *per, *maxK, *shard, *out, *only, *list, *filter, *stop)
@@ -46,6 +46,8 @@ func main() {
 		err = cmdIDSeq(*out)
 	case "probe":
 		err = cmdProbe()
+	case "adpclose": // adpclose.go: adapters closed while calls are outstanding on them (C08)
+		err = cmdAdpClose(os.Args[2:])
 	default:
 		err = fmt.Errorf("unknown subcommand %s", os.Args[1])
 	}
